@@ -12,46 +12,72 @@ Oracle clauses (exactly the sentences of the property statement)
   members   iteration of the namespace == model member list (an operation that raised must
             leave it unchanged); labels() == model labels            [needed by all others]
   bits      taxon_bitmask(t) is a single bit; equal to the bit first observed for t as a
-            member of this namespace; no two members share a bit; all_taxa_bitmask() COVERS
-            the OR of the member bits (equality only while nothing ever left the namespace:
-            freed bits are documented as not reused)
-  roundtrip for subsets S of members (all subsets while n <= 4, a sample otherwise):
-            taxa_bitmask(taxa=S) == OR of model bits, bitmask_taxa_list(mask) == S as a set
-            without repeats; taxa_bitmask(labels=..) == OR over the members the model matches
-  render    bitmask_as_bitstring(mask): '1' positions == bit positions of S;
-            bitmask_as_newick_string / split_as_newick_string(mask), tokenised by our own
-            Newick reader: "((L), (R));" must have multiset(L) == labels of S and
-            multiset(R) == labels of members-S; the star form "(all);" is accepted for
-            S == all members (and for the empty mask, where the code documents "do not do
-            the root") and must then list the labels of all members
+            member of this namespace; no two members share a bit
+  roundtrip for subsets S of members (all subsets while n <= 4, a sample otherwise, the empty
+            set included): taxa_bitmask(taxa=S) (S given as list / tuple / set / iterator;
+            legacy alias get_taxa_bitmask; taxa_bipartition(taxa=S).leafset_bitmask)
+            == OR of model bits, bitmask_taxa_list(mask) (Bipartition.leafset_taxa) == S as
+            a set without repeats; taxa_bitmask(labels=.. [, first_match_only=True]) == OR
+            over the (first) members the model matches
+  render    bitmask_as_bitstring(mask) (legacy alias split_as_string): '1' positions == bit
+            positions of S; bitmask_as_newick_string / split_as_newick_string(mask)
+            (default options, preserve_spaces=True, quote_underscores=False;
+            Bipartition.leafset_as_newick_string), tokenised by our own Newick reader:
+            "((L), (R));" must have multiset(L) == labels of S and multiset(R) == labels of
+            members-S; the star form "(all);" is accepted for S == all members (and for the
+            empty mask, where the code documents "do not do the root") and must then list
+            the labels of all members.  An unlabelled member (label None) has no name: it
+            and unnamed slots of the rendering are left out of the comparison.  A member
+            labelled "" must appear as a token (''): an empty slot is no token for any
+            reader following NEXUS/Newick token rules (the library's own reader included)
   lookup    findall / get_taxon / has_taxon_label / get_taxa (both first_match_only) /
-            has_taxa_labels / label_taxon_map, for the namespace default and both per-call
-            overrides: exactly the matching members in membership order (get_taxa with
-            several labels: per label in membership order, no repeats; label_taxon_map:
-            a matching member -- collisions are documented as unhandled)
+            has_taxa_labels / label_taxon_map, for the namespace default and per-call
+            overrides (keyword or positional; True / False and their truthy / falsy
+            non-bool twins 1 / 0): exactly the matching members in membership order
+            (get_taxa with several labels - list, tuple, set, iterator, empty: per label in
+            membership order, no repeats; label_taxon_map: a matching member -- collisions
+            are documented as unhandled)
   require   require_taxon returns the first match and changes nothing, else creates exactly
             one member with that label (mutable) or raises and creates none (immutable)
-  immutable no operation makes an immutable namespace gain a member
-  copy      copy.copy, TaxonNamespace(ns), TaxonNamespace(ns, label=..), copy.deepcopy,
-            clone(0/1/2): the i-th taxon of the copy has the bit of the i-th taxon of the
-            original; the copy is then monitored (and mutated) like any namespace, and the
-            original keeps being compared with its own model
+  immutable no operation makes an immutable namespace gain a member (key
+            ``immutable|gained-member|..`` only when a member is present that was not there
+            before the operation; any other membership difference is ``members|differ|..``)
+  copy      copy.copy, TaxonNamespace(ns), TaxonNamespace(ns, label=..), TaxonSet(ns),
+            copy.deepcopy, clone(0/1/2): the i-th taxon of the copy has the bit of the i-th
+            taxon of the original; the copy is then monitored (and mutated) like any
+            namespace, and the original keeps being compared with its own model.  In lazy
+            histories the clause is usually DEFERRED: neither namespace's bits are read at
+            copy time, the pairing is remembered and judged at the next bit reading for the
+            taxa that stayed members of both (copy, then sort / remove / re-add, then the
+            first bit read)
 
 Soundness limits actually implemented
   * no particular bit value is demanded for a new member, only single/unshared/stable;
   * order after sort() is adopted from the real object once it is a permutation of the
     members (the statement says nothing about the sort key); every other operation's
-    effect on membership order is predicted;
+    effect on membership order is predicted from the documentation (new members are
+    appended, reverse reverses); a difference in ORDER ONLY is reported under
+    ``documented-behaviour|membership-order|..`` and the real order is adopted;
+  * growth of an immutable namespace must raise TypeError (what the documentation says;
+    the library's ImmutableTaxonNamespaceError is a subclass) -- what is judged is that
+    nothing was gained;
+  * all_taxa_bitmask(), ``taxon in ns``, ns[i], reversed(ns) are not named by the statement:
+    disagreements are reported under ``documented-behaviour|..`` keys (all_taxa_bitmask
+    covering the member bits, container protocol agreeing with iteration); all_taxa_bitmask
+    having bits of no member, has_taxon_label returning a non-bool, a copy being deeper or
+    shallower than documented are only recorded;
   * case-insensitive matching is judged only for label pairs on which lower(), upper() and
     casefold() agree; queries touching an ambiguous pair are recorded, not judged, and
     mutating operations are never generated with such a label;
-  * labels are non-empty strings (no None); special characters only in the "special" pool,
-    where renderings are read with standard Newick quoting rules under the writer's default
-    options (and preserve_spaces=True);
-  * an exception outside the documented set (ImmutableTaxonNamespaceError, ValueError for a
-    non-member, LookupError for an unmatched label, IndexError) raised by one of the
-    operations the property quantifies over is reported under its own key
-    ``<op>|unexpected-exception|..`` -- the operation could not be monitored;
+  * labels are strings (the empty string, blank-padded strings and special characters
+    included) or None (unlabelled taxon); queries are always strings; sort() with the
+    default key is not generated while an unlabelled taxon is a member (None < str raises);
+    renderings are read with standard Newick quoting rules; with quote_underscores=False
+    underscore and blank are the same character on both sides of the comparison;
+  * an exception outside the documented set (TypeError for growth of an immutable
+    namespace, ValueError for a non-member, LookupError for an unmatched label, IndexError)
+    raised by one of the operations the property quantifies over is reported under its own
+    key ``<op>|unexpected-exception|..`` -- the operation could not be monitored;
   * "lazy" histories run the bit-reading comparisons only now and then, because
     taxon_bitmask() fills a cache and so perturbs the state being watched; membership and
     lookups (which do not touch the cache) are still compared after every operation.
@@ -60,18 +86,24 @@ Workload: directed witnesses (one case, always first); exhaustive histories over
 alphabet {a, A, b}, both case-sensitivity settings: every history of length <= 3 (quick) /
 <= 4 (thorough) over the 18-operation alphabet FULL, <= 4 / <= 5 over the 12-operation CORE,
 <= 6 over the 7-operation MINI (thorough), <= 6 / <= 8 over the 5-operation MICRO (8 only
-for the case-insensitive namespace) -- length 8 over all 18 operations is 1e10 histories and
-is not attempted; a history of length k gets the membership/bit comparison after every
-operation and the full comparison after its last one, every proper prefix being itself an
-enumerated history; a lazy replica of the FULL layer up to length 3; random histories of
-length 50 (half of them start from a namespace filled by the constructor from strings and
-Taxon objects) over label pools with duplicates, case variants, special characters and
-non-ASCII case pairs, per-call
-overrides, flag toggles, copies at random points."""
+for the case-insensitive namespace); every history of length <= 3 / <= 4 over the
+15-operation OPTS alphabet (per-call overrides True/False/1/0 x first_match_only x
+immutability x flag toggle x list/legacy routes) started from the namespace [a, A, b] with
+flag False and 1, and over the 14-operation EDGE alphabet (labels "", "a", " a", None and
+blank-padded queries) with flag 0 and True; a history of length k gets the membership/bit
+comparison after every operation and the full comparison after its last one, every proper
+prefix being itself an enumerated history; a lazy replica of the FULL layer up to length 3;
+random histories of length 50 (half of them start from a namespace filled by the
+constructor from strings and Taxon objects; one in eight namespaces is a legacy TaxonSet)
+over label pools with duplicates, case variants, special characters, non-ASCII case pairs
+and the boundary labels, per-call overrides and flag values from {True, False, 1, 0},
+flag toggles, relabelling of taxa held by another namespace only, copies at random points;
+two histories on a namespace of 300+ members (bits beyond one machine word)."""
 import copy
 import itertools
 import random
 import warnings
+from operator import is_ as _is
 
 from . import _c10_util as U
 from ..mon.hooks import Hooks
@@ -80,7 +112,8 @@ PROP = "C10"
 LEVEL = "exploration"
 TECHNIQUE = "runtime monitoring: lock-step namespace model compared with the real object after every operation of generated histories"
 LEVEL_TEXT = ("Lock-step reference-model monitor: real TaxonNamespace objects are driven through exhaustive short and "
-              "random long operation histories; after every operation bits, round trips, renderings and label lookups "
+              "random long operation histories (label boundary classes, non-bool flag values, legacy routes and aliases "
+              "included); after every operation bits, round trips, renderings and label lookups "
               "are compared with a DendroPy-free model. The property held (or not) on the executions listed in the "
               "evidence file, nothing more.")
 LEVEL_NOTE = ("Trusted: the namespace model and rendering parsers in vf/props/_c10_util.py and the comparison code of "
@@ -88,7 +121,9 @@ LEVEL_NOTE = ("Trusted: the namespace model and rendering parsers in vf/props/_c
               "Coverage is what the workload reached (see evidence).")
 RULE = ("cases = directed witnesses + all operation histories up to a tier-dependent length over alphabets of "
         "add/new/require/remove/discard/del/sort/reverse/relabel/re-add/clear/copy operations on labels {a,A,b} x both "
-        "case-sensitivity settings + random histories of length 50 over label pools; a history is non-trivial when at "
+        "case-sensitivity settings (+ an option alphabet: per-call overrides True/False/1/0 x first_match_only x "
+        "immutability, started from [a,A,b]; + a boundary alphabet: labels '', ' a', None) + random histories of "
+        "length 50 over label pools + two histories on 300+ members; a history is non-trivial when at "
         "some step the membership order differs from the bit order (after a removal, sort, reverse) or two members' "
         "labels match case-insensitively; distinct = distinct (operation sequence, initial flags, label pool)")
 REACH = ["taxonmodel:TaxonNamespace.add_taxon", "taxonmodel:TaxonNamespace.remove_taxon",
@@ -104,7 +139,14 @@ REACH = ["taxonmodel:TaxonNamespace.add_taxon", "taxonmodel:TaxonNamespace.remov
          "taxonmodel:TaxonNamespace.reverse", "taxonmodel:TaxonNamespace.clear",
          "taxonmodel:TaxonNamespace.__delitem__", "taxonmodel:TaxonNamespace.__copy__",
          "taxonmodel:TaxonNamespace.__deepcopy__", "taxonmodel:TaxonNamespace.label_taxon_map",
-         "container:CaseInsensitiveDict.__setitem__"]
+         "container:CaseInsensitiveDict.__setitem__",
+         "taxonmodel:TaxonNamespace.get_taxa_bitmask", "taxonmodel:TaxonNamespace.split_as_string",
+         "taxonmodel:TaxonNamespace.taxa_bipartition", "taxonmodel:TaxonNamespace.__contains__",
+         "taxonmodel:TaxonNamespace.__getitem__", "taxonmodel:TaxonNamespace.__reversed__",
+         "taxonmodel:TaxonNamespace.new_taxa", "taxonmodel:TaxonNamespace.add_taxa",
+         "taxonmodel:TaxonNamespace.append", "taxonmodel:TaxonNamespace.remove",
+         "taxonmodel:TaxonSet.__init__", "taxonmodel:Taxon._get_lower_cased_label",
+         "_bipartition:Bipartition.leafset_taxa", "_bipartition:Bipartition.leafset_as_newick_string"]
 MIN_EVENTS = {"op-applied": (100000, 2500000), "state-compared": (100000, 3000000),
               "bits-checked": (150000, 5000000), "roundtrip-checked": (500000, 10000000),
               "render-newick-checked": (250000, 5000000), "render-bitstring-checked": (150000, 3000000),
@@ -120,10 +162,30 @@ MIN_EVENTS = {"op-applied": (100000, 2500000), "state-compared": (100000, 300000
               "hook:TaxonNamespace.bitmask_as_newick_string:return": (150000, 3000000),
               "hook:nexusprocessing.bitmask_as_newick_string:return": (250000, 5000000),
               "hook:TaxonNamespace.__deepcopy__:return": (1000, 50000),
-              "hook:TaxonNamespace.__copy__:return": (3000, 50000)}
+              "hook:TaxonNamespace.__copy__:return": (3000, 50000),
+              # input classes / routes added after the audit (thorough minima: 10 x quick, conservative)
+              "boundary-label-namespace-compared": (9000, 90000), "boundary-query-checked": (100000, 1000000),
+              "non-bool-flag-namespace-compared": (20000, 200000), "non-bool-override-checked": (45000, 450000),
+              "contains-checked": (60000, 600000), "reversed-checked": (500, 5000),
+              "copy-checked-deferred": (800, 8000), "big-namespace-compared": (70, 70),
+              "relabel-of-a-bystander-member": (70, 700), "route:empty-label-list": (18000, 180000),
+              "route:get_taxa_bitmask": (70000, 700000), "route:label-collection-not-a-list": (350000, 3500000),
+              "route:legacy-TaxonSet": (80, 800), "route:positional-override": (35000, 350000),
+              "route:split_as_string": (35000, 350000), "route:taxa_bipartition": (22000, 220000),
+              "route:taxa_bitmask-labels-first_match_only": (90000, 900000),
+              "hook:TaxonNamespace.get_taxa_bitmask:return": (70000, 700000),
+              "hook:TaxonNamespace.split_as_string:return": (35000, 350000),
+              "hook:TaxonNamespace.taxa_bipartition:return": (22000, 220000),
+              "hook:TaxonNamespace.remove:return": (40, 400),
+              "hook:TaxonNamespace.new_taxa:return": (700, 7000), "hook:TaxonNamespace.add_taxa:return": (700, 7000),
+              "hook:TaxonNamespace.append:return": (600, 6000),
+              "hook:TaxonNamespace.remove_taxon_label:return": (1500, 15000),
+              "hook:TaxonNamespace.discard_taxon_label:return": (12000, 120000)}
 ASSUMPTIONS = ["membership of a namespace is what iterating it yields; Taxon identity is object identity",
                "case-insensitive matching is judged only where str.lower, str.upper and str.casefold agree",
-               "renderings are read back with standard Newick token rules (quotes, '' escape, unquoted _ == blank)",
+               "renderings are read back with standard Newick token rules (quotes, '' escape, unquoted _ == blank; "
+               "an empty slot is an unnamed leaf, not the label '')",
+               "a flag value means what bool() of it is (1 == case-sensitive / mutable, 0 == not)",
                "deterministic library behaviour: a prefix of an exhaustive history reaches the same state as the "
                "shorter enumerated history"]
 CASE_TIMEOUT = 120
@@ -132,15 +194,21 @@ HOOKED = ["add_taxon", "append", "add_taxa", "new_taxon", "new_taxa", "remove_ta
           "discard_taxon_label", "clear", "findall", "has_taxon_label", "has_taxa_labels", "get_taxon", "get_taxa",
           "require_taxon", "sort", "reverse", "labels", "label_taxon_map", "all_taxa_bitmask", "taxon_bitmask",
           "taxa_bitmask", "bitmask_taxa_list", "bitmask_as_newick_string", "split_as_newick_string",
-          "bitmask_as_bitstring", "__delitem__", "__copy__", "__deepcopy__", "__init__"]
+          "bitmask_as_bitstring", "__delitem__", "__copy__", "__deepcopy__", "__init__",
+          "get_taxa_bitmask", "split_as_string", "taxa_bipartition", "remove"]
 
+BOUNDARY = ["", " ", " a", "a ", "a", "A", " A", "\ta", "a\n", None, "", "a", "A "]
 POOLS = {
     "case": ["a", "A", "b", "B", "ab", "Ab", "AB", "aB"],
     "dups": ["a", "a", "A", "b"],
     "words": ["Homo sapiens", "homo sapiens", "HOMO SAPIENS", "Pan", "pan", "Pan troglodytes", "t1", "T1", "t10"],
     "special": ["a b", "a_b", "A B", "it's", "x,y", "(p)", "a:b", "A_B", "q", "Q", "a  b", "a'b'", "[c]", "c;d"],
     "unicode": ["é", "É", "ß", "SS", "ss", "σ", "ς", "Σ", "İ", "i", "I", "ǆ", "ǅ", "a"],
+    "boundary": BOUNDARY,
 }
+# flag values: the bools and, now and then, their truthy / falsy non-bool twins
+TRUTHY = (True, True, True, 1)
+FALSY = (False, False, False, 0)
 
 _HOOKS = None
 
@@ -148,7 +216,7 @@ _HOOKS = None
 def shard_setup(ctx):
     global _HOOKS
     import dendropy
-    # the legacy aliases (TaxonNamespace.remove) warn through dendropy's own filter set-up; keep stderr quiet
+    # the legacy aliases (TaxonNamespace.remove, TaxonSet) warn through dendropy's own filter set-up; keep stderr quiet
     dendropy.utility.deprecate.configure_deprecation_warning_behavior("ignore")
     _HOOKS = Hooks(ctx)
     for name in HOOKED:
@@ -189,6 +257,22 @@ DIRECTED = [
              ["readd"], ["remove_at", 0], ["copy", "copy", False], ["copy", "ctor_label", False],
              ["copy", "deepcopy", False], ["copy", "clone0", False], ["copy", "clone1", False],
              ["copy", "clone2", True], ["set_mutable", True], ["new", "n"], ["clear"], ["new", "m"]]},
+    # label boundary classes: empty string, blank-padded labels, unlabelled taxon
+    {"name": "boundary-labels", "cs": False,
+     "ops": [["new", ""], ["new", "a"], ["new", " a"], ["new", "a "], ["add_fresh", None, False], ["new", "b"],
+             ["require", "", None], ["require", " A", None], ["require", "A", True], ["remove_at", 1],
+             ["relabel", 0, None], ["relabel", 1, ""], ["sort", None, False], ["discard", "", None, False],
+             ["copy", "deepcopy", True], ["require", "", True], ["relabel", 0, "\ta"], ["reverse"]]},
+    # labels whose case folding is not plain ASCII (each must at least match itself)
+    {"name": "non-ascii-labels", "cs": False,
+     "ops": [["new", "\u00df"], ["new", "\u0130"], ["new", "\u01c5"], ["new", "\u03c3"], ["new", "\u00c9"],
+             ["require", "\u00e9", None], ["reverse"], ["remove_at", 0]]},
+    # flag values that are truthy / falsy without being bools
+    {"name": "non-bool-flags", "cs": 1,
+     "ops": [["new", "a"], ["new", "A"], ["new", "b"], ["require", "B", None], ["set_cs", 0], ["require", "B", None],
+             ["require", "C", 1], ["set_mutable", 0], ["new", "x"], ["require", "c", 0], ["set_mutable", 1],
+             ["discard", "A", 1, False], ["set_cs", 1], ["copy", "copy", True], ["require", "c", None],
+             ["copy", "taxonset", True], ["remove_label", "b", 0, True]]},
 ]
 
 
@@ -196,15 +280,18 @@ def cases(tier, seed):
     # ONE case holds all directed witnesses (case 0 -> shard 0 -> its witnesses are reported first)
     yield {"kind": "directed", "mode": "eager", "seed": seed}
     yield {"kind": "directed", "mode": "lazy", "seed": seed}
+    # a namespace of 300+ members (tier-independent): bits beyond one machine word, removals at both ends
+    yield {"kind": "big", "mode": "eager", "seed": seed}
+    yield {"kind": "big", "mode": "lazy", "seed": seed}
     # exhaustive short histories.  (alphabet, max length) per tier; a case = one 2-op prefix
     # (alphabet, max length with a case-insensitive namespace, max length with a case-sensitive one)
     if tier == "quick":
-        plan = [("full", 3, 3), ("core", 4, 4), ("micro", 6, 6)]
+        plan = [("full", 3, 3), ("core", 4, 4), ("micro", 6, 6), ("opts", 3, 3), ("edge", 3, 3)]
     else:
-        plan = [("full", 4, 4), ("core", 5, 5), ("mini", 6, 6), ("micro", 8, 7)]
+        plan = [("full", 4, 4), ("core", 5, 5), ("mini", 6, 6), ("micro", 8, 7), ("opts", 4, 4), ("edge", 4, 4)]
     for alpha, maxlen_ci, maxlen_cs in plan:
         k = len(U.ALPHABETS[alpha])
-        for cs in (False, True):
+        for cs in U.ALPHABET_CS.get(alpha, (False, True)):
             maxlen = maxlen_cs if cs else maxlen_ci
             yield {"kind": "exh", "alpha": alpha, "cs": cs, "prefix": [], "lens": [1, 2], "seed": seed}
             for i in range(k):
@@ -225,7 +312,7 @@ def cases(tier, seed):
         for i in range(k):
             yield {"kind": "exh", "alpha": "full", "cs": cs, "prefix": [i], "lens": [2, 3], "mode": "lazy",
                    "seed": seed}
-    nrand = 400 if tier == "quick" else 12000
+    nrand = 384 if tier == "quick" else 12000
     pools = sorted(POOLS)
     for i in range(nrand):
         yield {"kind": "random", "i": i, "pool": pools[i % len(pools)], "len": 50, "seed": seed}
@@ -238,16 +325,33 @@ class Abort(Exception):
     """real object and model disagree on membership: the rest of the history is not judged"""
 
 
+def _is_bool(v):
+    return v is True or v is False
+
+
 def _mode_name(model, override):
+    """discriminator of a lookup key: which setting decided, and whether it was given as a real bool"""
     cs = model.eff_cs(override)
-    return "%s-%s" % ("sensitive" if cs else "insensitive", "by-default" if override is None else "by-override")
+    if override is None:
+        how = "by-default" if _is_bool(model.cs_raw) else "by-default(non-bool-flag)"
+    else:
+        how = "by-override" if _is_bool(override) else "by-override(non-bool-value)"
+    return "%s-%s" % ("sensitive" if cs else "insensitive", how)
+
+
+def _show(got):
+    return [getattr(t, "label", t) for t in got] if isinstance(got, (list, tuple)) else got
+
+
+def _under(x):
+    return x.replace("_", " ") if isinstance(x, str) else x
 
 
 class Run(object):
-    def __init__(self, ctx, case, cs=False, mutable=True, mode="eager", rng=None, queries=None, initial=None):
+    def __init__(self, ctx, case, cs=False, mutable=True, mode="eager", rng=None, queries=None, initial=None,
+                 cls="TaxonNamespace", init_full=True):
         import dendropy
         self.dp = dendropy
-        self.err = dendropy.utility.error.ImmutableTaxonNamespaceError
         self.ctx = ctx
         self.case = case
         self.mode = mode
@@ -260,17 +364,23 @@ class Run(object):
         self.removed = []       # tids that left some namespace, most recent last
         self.history = []
         self.nontrivial = False
+        self.ncmp = 0
         model = U.NSModel(self.world, cs, mutable)
         self.cur = 0
         self.last_op = "init"
+        nscls = getattr(dendropy, cls)
+        if cls != "TaxonNamespace":
+            ctx.ev("route:legacy-TaxonSet")
         if not initial:
-            ns = dendropy.TaxonNamespace(is_case_sensitive=cs, is_mutable=mutable)
+            ns = nscls(is_case_sensitive=cs, is_mutable=mutable)
             self.pairs = [[ns, model]]
         else:
             # members given to the constructor: ["L", label] -> a string, ["T", label] -> a Taxon object
             self.history.append(["init", initial])
             items = [(self.real[self.fresh(lab)] if k == "T" else lab) for k, lab in initial]
-            ns = dendropy.TaxonNamespace(items, is_case_sensitive=cs, is_mutable=mutable)
+            if self.rng.random() < 0.3:
+                items = tuple(items)
+            ns = nscls(items, is_case_sensitive=cs, is_mutable=mutable)
             self.pairs = [[ns, model]]
             got = list(ns)
             if len(got) != len(items):
@@ -281,7 +391,8 @@ class Run(object):
                 if k == "L":
                     self.expect_new_taxon("init", t, lab)
                 model.members.append(self.tid_of.get(id(t)))
-            self.compare_all(True)
+            model.mark_pre()
+            self.compare_all(init_full)
 
     # -- bookkeeping --------------------------------------------------------------------
     def register(self, taxon, label):
@@ -291,15 +402,19 @@ class Run(object):
         return tid
 
     def fresh(self, label):
-        return self.register(self.dp.Taxon(label=label), label)
+        t = self.dp.Taxon() if (label is None and self.rng.random() < 0.5) else self.dp.Taxon(label=label)
+        return self.register(t, label)
 
     def detail(self, **kw):
-        d = {"history": self.history[-60:], "cs": self.pairs[self.cur][1].cs}
+        d = {"history": self.history[-60:], "cs": self.pairs[self.cur][1].cs_raw}
         d.update(kw)
         return d
 
     def lab(self, tids):
         return [self.world.labels[t] for t in tids]
+
+    def other_free(self, m):
+        return [t for t in reversed(self.removed) if t not in m.members]
 
     # -- one operation ------------------------------------------------------------------
     def apply(self, op, full=True):
@@ -309,24 +424,28 @@ class Run(object):
         kind = op[0]
         self.history.append(op)
         self.last_op = kind
+        if kind in ("require", "remove_label", "discard") and op[2] is not None and not _is_bool(op[2]):
+            # own discriminator: a per-call setting given as a truthy / falsy non-bool decides this operation
+            self.last_op = "%s(non-bool-override)" % kind
+        for _, mm in self.pairs:
+            mm.mark_pre()
         snap = m.snapshot()
         pre_state = m.state_sig()
         ctx.ev("op-applied")
         if not m.mutable:
             ctx.ev("immutable-op-checked")
         n = len(m.members)
-        allowed = ()
         expect_raise = None
         call = None
         after = None            # callable(result) run when the real call returned
 
         def need_mutable_for_growth():
-            return None if m.mutable else self.err
+            # documented: "TypeError if this namespace is immutable" (ImmutableTaxonNamespaceError is a subclass)
+            return None if m.mutable else TypeError
 
         if kind == "new":
             L = op[1]
             expect_raise = need_mutable_for_growth()
-            allowed = (self.err,)
             call = lambda: ns.new_taxon(L) if self.rng.random() < 0.5 else ns.new_taxon(label=L)
 
             def after(r):
@@ -335,8 +454,9 @@ class Run(object):
         elif kind == "new_taxa":
             Ls = list(op[1])
             expect_raise = need_mutable_for_growth()
-            allowed = (self.err,)
-            call = lambda: ns.new_taxa(Ls)
+            form = self.rng.choice(("list", "list", "tuple", "iter"))
+            arg = {"list": list, "tuple": tuple, "iter": iter}[form](Ls)
+            call = lambda: ns.new_taxa(arg)
 
             def after(r):
                 if not isinstance(r, list) or len(r) != len(Ls):
@@ -351,7 +471,7 @@ class Run(object):
                 tid = self.fresh(op[1])
                 alias = bool(op[2])
             elif kind == "readd":
-                cand = [t for t in reversed(self.removed) if t not in m.members]
+                cand = self.other_free(m)
                 tid = cand[0] if cand else self.fresh("b")
                 alias = False
             else:
@@ -360,7 +480,6 @@ class Run(object):
             is_member = tid in m.members
             if not is_member:
                 expect_raise = need_mutable_for_growth()
-            allowed = (self.err,)
             t = self.real[tid]
             call = (lambda: ns.append(t)) if alias else (lambda: ns.add_taxon(t))
 
@@ -373,7 +492,7 @@ class Run(object):
             tids = []
             if n:
                 tids.append(m.members[k % n])
-            cand = [t for t in reversed(self.removed) if t not in m.members]
+            cand = self.other_free(m)
             if cand:
                 tids.append(cand[0])
             f = self.fresh("b")
@@ -384,9 +503,10 @@ class Run(object):
                     newones.append(t)
             if newones:
                 expect_raise = need_mutable_for_growth()
-            allowed = (self.err,)
             objs = [self.real[t] for t in tids]
-            call = lambda: ns.add_taxa(objs)
+            form = self.rng.choice(("list", "list", "tuple", "iter"))
+            arg = {"list": list, "tuple": tuple, "iter": iter}[form](objs)
+            call = lambda: ns.add_taxa(arg)
 
             def after(r):
                 m.members.extend(newones)
@@ -399,9 +519,13 @@ class Run(object):
                 return
             if not matches:
                 expect_raise = need_mutable_for_growth()
-            allowed = (self.err,)
-            kw = {} if cs is None else {"is_case_sensitive": cs}
-            call = lambda: ns.require_taxon(L, **kw)
+            if cs is None:
+                call = lambda: ns.require_taxon(L)
+            elif self.rng.random() < 0.2:
+                ctx.ev("route:positional-override")
+                call = lambda: ns.require_taxon(L, cs)
+            else:
+                call = lambda: ns.require_taxon(L, is_case_sensitive=cs)
             modename = _mode_name(m, cs)
 
             def after(r):
@@ -425,6 +549,8 @@ class Run(object):
                                       "require_taxon(%r): no member matches, namespace grew by %d, returned %s" % (
                                           L, grown, "an existing taxon" if id(r) in self.tid_of else "a new taxon"),
                                       self.detail(members=self.lab(m.members)))
+                        if grown == 0 and id(r) in self.tid_of:
+                            return              # nothing was created: real namespace and model still agree
                         raise Abort()
                     self.expect_new_taxon("require_taxon", r, L)
                     m.members.append(self.tid_of[id(r)])
@@ -432,11 +558,10 @@ class Run(object):
             if kind == "remove_at" and n:
                 tid = m.members[op[1] % n]
             else:
-                cand = [t for t in reversed(self.removed) if t not in m.members]
+                cand = self.other_free(m)
                 tid = cand[0] if cand else self.fresh("zz")
             if tid not in m.members:
                 expect_raise = ValueError
-            allowed = (ValueError,)
             t = self.real[tid]
             legacy = len(op) > 2 and op[2]
             call = (lambda: ns.remove(t)) if legacy else (lambda: ns.remove_taxon(t))
@@ -451,7 +576,6 @@ class Run(object):
             else:
                 tid = None
                 expect_raise = IndexError
-            allowed = (IndexError,)
 
             def call():
                 del ns[i]
@@ -468,15 +592,18 @@ class Run(object):
                 return
             if kind == "remove_label" and not matches:
                 expect_raise = LookupError
-            allowed = (LookupError,) if kind == "remove_label" else ()
             victims = matches[:1] if first else matches
-            kw = {}
-            if cs is not None:
-                kw["is_case_sensitive"] = cs
-            if first:
-                kw["first_match_only"] = True
             fn = ns.remove_taxon_label if kind == "remove_label" else ns.discard_taxon_label
-            call = lambda: fn(L, **kw)
+            if cs is not None and self.rng.random() < 0.2:
+                ctx.ev("route:positional-override")
+                call = (lambda: fn(L, cs, True)) if first else (lambda: fn(L, cs))
+            else:
+                kw = {}
+                if cs is not None:
+                    kw["is_case_sensitive"] = cs
+                if first:
+                    kw["first_match_only"] = True
+                call = lambda: fn(L, **kw)
 
             def after(r):
                 for t in victims:
@@ -491,11 +618,15 @@ class Run(object):
                     self.removed.append(t)
         elif kind == "sort":
             keykind, rev = op[1], bool(op[2])
+            if keykind is None and any(self.world.labels[t] is None for t in m.members):
+                # the default key compares labels: None < str raises TypeError (not a clause of the property)
+                ctx.note("default-sort-key-not-used:unlabelled-member")
+                keykind = "lower"
             kw = {}
             if keykind == "lower":
-                kw["key"] = lambda t: t.label.lower()
+                kw["key"] = lambda t: (t.label or "").lower()
             elif keykind == "len":
-                kw["key"] = lambda t: len(t.label)
+                kw["key"] = lambda t: len(t.label or "")
             if rev or self.rng.random() < 0.3:
                 kw["reverse"] = rev
             call = lambda: ns.sort(**kw)
@@ -506,8 +637,8 @@ class Run(object):
                     ctx.violation("members|differ|after-sort", "sort changed the membership",
                                   self.detail(model=self.lab(m.members), real=[getattr(t, "label", None) for t in ns]))
                     raise Abort()
-                kf = {None: (lambda t: self.world.labels[t]), "lower": (lambda t: self.world.labels[t].lower()),
-                      "len": (lambda t: len(self.world.labels[t]))}[keykind]
+                kf = {None: (lambda t: self.world.labels[t]), "lower": (lambda t: (self.world.labels[t] or "").lower()),
+                      "len": (lambda t: len(self.world.labels[t] or ""))}[keykind]
                 if got != sorted(m.members, key=kf, reverse=rev):
                     ctx.note("sort-order-differs-from-stable-sort-by-key")
                 m.members[:] = got
@@ -516,12 +647,29 @@ class Run(object):
 
             def after(r):
                 m.members.reverse()
-        elif kind in ("relabel", "relabel_cycle"):
-            if not n:
-                self.history.pop()
-                return
-            tid = m.members[op[1] % n]
-            L = U.CYCLE.get(self.world.labels[tid], "a") if kind == "relabel_cycle" else op[2]
+        elif kind in ("relabel", "relabel_cycle", "relabel_edge", "relabel_other"):
+            if kind == "relabel_other":
+                # a taxon that is a member of ANOTHER live namespace only (labels belong to the taxon)
+                cand = []
+                for k2, (_, m2) in enumerate(self.pairs):
+                    if k2 != self.cur:
+                        cand += [t for t in m2.members if t not in m.members and t not in cand]
+                if not cand:
+                    self.history.pop()
+                    return
+                tid = cand[op[1] % len(cand)]
+                ctx.ev("relabel-of-a-bystander-member")
+            else:
+                if not n:
+                    self.history.pop()
+                    return
+                tid = m.members[op[1] % n]
+            if kind == "relabel_cycle":
+                L = U.CYCLE.get(self.world.labels[tid], "a")
+            elif kind == "relabel_edge":
+                L = U.EDGE_CYCLE.get(self.world.labels[tid], "a")
+            else:
+                L = op[2]
             t = self.real[tid]
 
             def call():
@@ -530,21 +678,21 @@ class Run(object):
             def after(r):
                 self.world.labels[tid] = L
         elif kind == "set_cs":
-            v = bool(op[1])
+            v = (not m.cs) if op[1] == "toggle" else op[1]
 
             def call():
                 ns.is_case_sensitive = v
 
             def after(r):
-                m.cs = v
+                m.set_cs(v)
         elif kind == "set_mutable":
-            v = bool(op[1])
+            v = op[1]
 
             def call():
                 ns.is_mutable = v
 
             def after(r):
-                m.mutable = v
+                m.set_mutable(v)
         elif kind == "copy":
             self.do_copy(op[1], bool(op[2]))
             self.compare_all(full)
@@ -569,12 +717,14 @@ class Run(object):
                 opname = {"remove_label": "remove_taxon_label", "discard": "discard_taxon_label"}.get(kind, kind)
                 if kind in ("remove_label", "discard") and op[3]:
                     opname = "%s(first_match_only=True)" % opname
+                if self.last_op != kind:
+                    opname = "%s(non-bool-override)" % opname
                 ctx.unexpected(opname, e, self.detail(members=self.lab(m.members)))
             # whatever was raised: the namespace must be as before
             self.compare_all(full, after_raise=True)
             return
         if expect_raise is not None:
-            if expect_raise is self.err:
+            if expect_raise is TypeError:
                 # growth of an immutable namespace is reported by the membership comparison below
                 ctx.note("immutable-namespace-operation-did-not-raise")
             else:
@@ -596,8 +746,7 @@ class Run(object):
             if m.order_differs_from_bits():
                 self.nontrivial = True
             else:
-                labs = self.lab(m.members)
-                low = [x.lower() for x in labs]
+                low = [x.lower() for x in self.lab(m.members) if x is not None]
                 if len(set(low)) < len(low):
                     self.nontrivial = True
 
@@ -613,84 +762,130 @@ class Run(object):
         ctx = self.ctx
         ns, m = self.pairs[self.cur]
         try:
-            if ckind == "copy":
-                c = copy.copy(ns)
-            elif ckind == "ctor":
-                c = self.dp.TaxonNamespace(ns)
-            elif ckind == "ctor_label":
-                c = self.dp.TaxonNamespace(ns, label="copy")
-            elif ckind == "deepcopy":
-                c = copy.deepcopy(ns)
-            elif ckind in ("clone0", "clone1", "clone2"):
-                c = ns.clone(int(ckind[-1]))
-            else:
-                raise ValueError(ckind)
+            with warnings.catch_warnings():
+                warnings.simplefilter("ignore")
+                if ckind == "copy":
+                    c = copy.copy(ns)
+                elif ckind == "ctor":
+                    c = self.dp.TaxonNamespace(ns)
+                elif ckind == "ctor_label":
+                    c = self.dp.TaxonNamespace(ns, label="copy")
+                elif ckind == "taxonset":
+                    c = self.dp.TaxonSet(ns)
+                    ctx.ev("route:legacy-TaxonSet")
+                elif ckind == "deepcopy":
+                    c = copy.deepcopy(ns)
+                elif ckind in ("clone0", "clone1", "clone2"):
+                    c = ns.clone(int(ckind[-1]))
+                else:
+                    raise ValueError(ckind)
         except Exception as e:
+            from ..core import CaseTimeout
+            if isinstance(e, CaseTimeout):
+                raise
             ctx.unexpected("copy:%s" % ckind, e, self.detail())
             return
         if c is ns:
-            ctx.note("copy-returned-the-namespace-itself:%s" % ckind)   # clone(1): documented reference semantics
+            if ckind == "clone1":
+                ctx.note("copy-returned-the-namespace-itself:clone1")   # clone(1): documented reference semantics
+            else:
+                ctx.violation("copy|returned-the-namespace-itself|%s" % ckind,
+                              "the copy is the original object", self.detail())
             return
-        deep = ckind in ("deepcopy", "clone2")
-        # the original is read first (its own stability is judged here, under its own key), so that a
-        # difference found below can only come from the copy
-        self.check_bits(ns, m, "copy:%s(original)" % ckind if not self.lazy_history
-                        else "some-earlier-operation(lazy-history)")
+        documented_deep = ckind in ("deepcopy", "clone2")
+        # lazy histories usually DEFER the clause: no bit of either namespace is read now (reading fills the caches)
+        deferred = self.mode == "lazy" and self.rng.random() < 0.7
+        if not deferred:
+            # the original is read first (its own stability is judged here, under its own key), so that a
+            # difference found below can only come from the copy
+            self.check_bits(ns, m, "copy:%s(original)" % ckind if not self.lazy_history
+                            else "some-earlier-operation(lazy-history)")
         ctaxa = list(c)
         if len(ctaxa) != len(m.members):
             ctx.violation("copy|membership-differs|%s" % ckind, "copy has %d members, original %d" % (
                 len(ctaxa), len(m.members)), self.detail())
             return
-        cm = U.NSModel(self.world, bool(c.is_case_sensitive), bool(c.is_mutable))
+        cm = U.NSModel(self.world, c.is_case_sensitive, c.is_mutable)
         cm.ever_removed = m.ever_removed
         if cm.cs != m.cs or cm.mutable != m.mutable:
             ctx.note("copy-changed-flags:%s" % ckind)
+        seen_deep = seen_shallow = False
         for tid, ct in zip(m.members, ctaxa):
-            if deep:
-                if id(ct) in self.tid_of or ct.label != self.world.labels[tid]:
-                    ctx.violation("copy|deep-copy-taxon-wrong|%s" % ckind,
-                                  "deep copy member is %s" % ("an existing taxon" if id(ct) in self.tid_of else
-                                                              "labelled %r for %r" % (ct.label, self.world.labels[tid])),
-                                  self.detail())
-                    return
+            if ct is self.real[tid]:
+                seen_shallow = True
+                ntid = tid
+            elif isinstance(ct, self.dp.Taxon) and id(ct) not in self.tid_of and ct.label == self.world.labels[tid]:
+                seen_deep = True
                 ntid = self.register(ct, self.world.labels[tid])
             else:
-                if ct is not self.real[tid]:
-                    ctx.violation("copy|shallow-copy-member-not-the-same-taxon|%s" % ckind,
-                                  "shallow copy holds another object at the position of %r" % self.world.labels[tid],
-                                  self.detail())
-                    return
-                ntid = tid
+                ctx.violation("copy|member-is-neither-the-original-taxon-nor-a-new-copy-of-it|%s" % ckind,
+                              "copy member at the position of %r is %s" % (
+                                  self.world.labels[tid], "another existing taxon" if id(ct) in self.tid_of else
+                                  "labelled %r" % (getattr(ct, "label", ct),)), self.detail())
+                return
             cm.members.append(ntid)
-            if tid in m.bits:
-                cm.bits[ntid] = m.bits[tid]
-        # the copy clause itself: bit of the copy == bit of the original (the reference value was read
-        # from the original by check_bits above, never from the copy)
-        for tid, ntid in zip(m.members, cm.members):
-            ctx.ev("copy-checked")
-            try:
-                b = c.taxon_bitmask(self.real[ntid])
-            except Exception as e:
-                ctx.unexpected("copy:%s:taxon_bitmask" % ckind, e, self.detail())
-                return
-            if b != m.bits[tid]:
-                ctx.violation("copy|bit-differs-from-original|%s" % ckind,
-                              "taxon %r has bit %s in the original and %s in the copy" % (
-                                  self.world.labels[tid], bin(m.bits[tid]), bin(b) if isinstance(b, int) else b),
-                              self.detail(members=self.lab(m.members),
-                                          original_bits=[bin(m.bits.get(t, 0)) for t in m.members]))
-                return
+        if (seen_deep and not documented_deep) or (seen_shallow and documented_deep):
+            ctx.note("copy-depth-differs-from-documented:%s" % ckind)
+        if deferred:
+            for tid, ntid in zip(m.members, cm.members):
+                self.world.links.append([m, tid, cm, ntid, ckind, m.drops.get(tid, 0), cm.drops.get(ntid, 0)])
+            ctx.ev("copy-clause-deferred")
+        else:
+            # the copy clause itself: bit of the copy == bit of the original (the reference value was read
+            # from the original by check_bits above, never from the copy)
+            for tid, ntid in zip(m.members, cm.members):
+                ctx.ev("copy-checked")
+                try:
+                    b = c.taxon_bitmask(self.real[ntid])
+                except Exception as e:
+                    ctx.unexpected("copy:%s:taxon_bitmask" % ckind, e, self.detail())
+                    return
+                if b != m.bits[tid]:
+                    ctx.violation("copy|bit-differs-from-original|%s" % ckind,
+                                  "taxon %r has bit %s in the original and %s in the copy" % (
+                                      self.world.labels[tid], bin(m.bits[tid]), bin(b) if isinstance(b, int) else b),
+                                  self.detail(members=self.lab(m.members),
+                                              original_bits=[bin(m.bits.get(t, 0)) for t in m.members]))
+                    return
+                cm.bits[ntid] = b
         self.pairs.append([c, cm])
         if len(self.pairs) > 3:
             # forget the oldest namespace that is not the current one
             for k in range(len(self.pairs)):
                 if k != self.cur and k != len(self.pairs) - 1:
+                    gone = self.pairs[k][1]
                     del self.pairs[k]
                     if k < self.cur:
                         self.cur -= 1
+                    if self.world.links:
+                        kept = [l for l in self.world.links if l[0] is not gone and l[2] is not gone]
+                        if len(kept) != len(self.world.links):
+                            ctx.note("deferred-copy-clause-dropped:namespace-forgotten")
+                        self.world.links = kept
                     break
         if switch:
             self.cur = len(self.pairs) - 1
+
+    def resolve_links(self):
+        """deferred copy clauses: judge every pairing whose two bits have been observed by now"""
+        ctx = self.ctx
+        keep = []
+        for link in self.world.links:
+            om, tid, cm, ntid, ckind, d0, d1 = link
+            if (tid not in om.members or ntid not in cm.members or om.drops.get(tid, 0) != d0
+                    or cm.drops.get(ntid, 0) != d1):
+                continue        # one of the two left its namespace since the copy: nothing to compare
+            if tid not in om.bits or ntid not in cm.bits:
+                keep.append(link)
+                continue
+            ctx.ev("copy-checked")
+            ctx.ev("copy-checked-deferred")
+            if om.bits[tid] != cm.bits[ntid]:
+                ctx.violation("copy|bit-differs-from-original|%s" % ckind,
+                              "taxon %r has bit %s in the original and %s in the copy (first read after later operations)" % (
+                                  self.world.labels[tid], bin(om.bits[tid]), bin(cm.bits[ntid])),
+                              self.detail(original=self.lab(om.members), copy=self.lab(cm.members)))
+        self.world.links = keep
 
     # -- comparison ---------------------------------------------------------------------
     def compare_all(self, full, after_raise=False):
@@ -711,19 +906,38 @@ class Run(object):
         real_taxa = list(ns)
         got = [self.tid_of.get(id(t)) for t in real_taxa]
         if got != m.members or len(ns) != len(m.members):
-            if not m.mutable and len(real_taxa) > len(m.members):
-                key = "immutable|gained-member|%s" % op
+            if (None not in got and len(got) == len(m.members) == len(ns) and len(set(got)) == len(got)
+                    and sorted(got) == sorted(m.members)):
+                # the same members in another order: where a new member goes / what reverse does is documented
+                # behaviour, not a clause of the statement -- reported under its own key, real order adopted
+                ctx.violation("documented-behaviour|membership-order|after-%s" % op,
+                              "the members are those expected, their order is not the documented one after %s" % op,
+                              self.detail(model=self.lab(m.members), real=self.lab(got)))
+                m.members[:] = got
             else:
-                key = "members|differ|after-%s" % op
-            ctx.violation(key, "members of the real namespace differ from the model after %s" % op,
-                          self.detail(model=self.lab(m.members),
-                                      real=[getattr(t, "label", repr(t)) for t in real_taxa]))
-            raise Abort()
+                gained = [x for x in got if x is None or x not in m.pre_members]
+                if not m.pre_mutable and not m.mutable and gained:
+                    key = "immutable|gained-member|%s" % op
+                else:
+                    key = "members|differ|after-%s" % op
+                ctx.violation(key, "members of the real namespace differ from the model after %s" % op,
+                              self.detail(model=self.lab(m.members),
+                                          real=[getattr(t, "label", repr(t)) for t in real_taxa]))
+                raise Abort()
         want_labels = self.lab(m.members)
         if ns.labels() != want_labels:
             ctx.violation("members|labels-differ|after-%s" % op, "labels() != labels of the members",
                           self.detail(model=want_labels, real=ns.labels()))
             raise Abort()
+        self.ncmp += 1
+        if not self.ncmp & 3:
+            self.check_container_protocol(ns, m, real_taxa, op)
+        if not _is_bool(m.cs_raw) or not _is_bool(m.mutable_raw):
+            ctx.ev("non-bool-flag-namespace-compared")
+        if any((x is None or x == "" or x != x.strip()) for x in want_labels):
+            ctx.ev("boundary-label-namespace-compared")
+        if len(want_labels) >= 200:
+            ctx.ev("big-namespace-compared")
         lazy = self.mode == "lazy"
         if lazy and not full:
             self.check_lookups(ns, m, light=True)
@@ -737,6 +951,33 @@ class Run(object):
             return
         self.check_subsets(ns, m, union)
         self.check_lookups(ns, m, light=False)
+
+    def check_container_protocol(self, ns, m, real_taxa, op):
+        """``t in ns``, ns[i], reversed(ns) against iteration (membership is DEFINED as iteration; the library
+        answers ``in`` from its accession map).  Not clauses of the statement: own key family."""
+        ctx = self.ctx
+        bad = None
+        if real_taxa:
+            ctx.ev("contains-checked")
+            if not (real_taxa[0] in ns and real_taxa[-1] in ns):
+                bad = "member-not-contained"
+            elif ns[0] is not real_taxa[0] or ns[-1] is not real_taxa[-1] or ns[len(real_taxa) // 2] is not real_taxa[len(real_taxa) // 2]:
+                bad = "getitem-disagrees-with-iteration"
+        if bad is None:
+            for tid in self.removed[-2:]:
+                if tid not in m.members:
+                    ctx.ev("contains-checked")
+                    if self.real[tid] in ns:
+                        bad = "non-member-contained"
+        if bad is None and not self.ncmp & 31:
+            ctx.ev("reversed-checked")
+            rv = list(reversed(ns))
+            if len(rv) != len(real_taxa) or any(a is not b for a, b in zip(rv, reversed(real_taxa))):
+                bad = "reversed-disagrees-with-iteration"
+        if bad:
+            ctx.violation("documented-behaviour|container-protocol|%s|after-%s" % (bad, op),
+                          "`in` / [] / reversed() disagree with iteration after %s" % op,
+                          self.detail(members=self.lab(m.members)))
 
     def check_bits(self, ns, m, op, want_labels=None):
         """the 'bits' clause for one namespace; returns the OR of the member bits"""
@@ -768,14 +1009,16 @@ class Run(object):
                 raise Abort()
             seen[b] = tid
             union |= b
+        # all_taxa_bitmask is not named by the statement; documented as "bitmask spanning all Taxon objects in self"
         allm = ns.all_taxa_bitmask()
         if not isinstance(allm, int) or (allm & union) != union:
-            ctx.violation("bits|all_taxa_bitmask-does-not-cover-members",
-                          "all_taxa_bitmask()=%s, OR of member bits=%s" % (bin(allm), bin(union)), self.detail())
+            ctx.violation("documented-behaviour|all_taxa_bitmask-does-not-cover-members",
+                          "all_taxa_bitmask()=%s, OR of member bits=%s" % (
+                              bin(allm) if isinstance(allm, int) else allm, bin(union)), self.detail())
         elif not m.ever_removed and allm != union:
-            # nothing ever left this namespace: "bitmask spanning all Taxon objects in self" is exactly the members
-            ctx.violation("bits|all_taxa_bitmask-has-bits-of-no-member|nothing-ever-removed",
-                          "all_taxa_bitmask()=%s, OR of member bits=%s" % (bin(allm), bin(union)), self.detail())
+            ctx.note("all_taxa_bitmask-has-bits-of-no-member-although-nothing-ever-left")
+        if self.world.links:
+            self.resolve_links()
         return union
 
     # ---- subsets: round trip and renderings -------------------------------------------
@@ -798,9 +1041,12 @@ class Run(object):
             if rng.random() < 0.5:
                 s.sort(key=mem.index)
             yield s
+        if rng.random() < 0.2:
+            yield []
 
     def check_subsets(self, ns, m, union):
         ctx = self.ctx
+        rng = self.rng
         mem = m.members
         labels = self.lab(mem)
         for S in self.subsets(m):
@@ -809,7 +1055,13 @@ class Run(object):
                 want |= m.bits[t]
             taxa = [self.real[t] for t in S]
             ctx.ev("roundtrip-checked")
-            mask = ns.taxa_bitmask(taxa=taxa if self.rng.random() < 0.7 else iter(taxa))
+            x = rng.random()
+            arg = taxa if x < 0.6 else iter(taxa) if x < 0.8 else tuple(taxa) if x < 0.9 else set(taxa)
+            if rng.random() < 0.06:
+                ctx.ev("route:get_taxa_bitmask")
+                mask = ns.get_taxa_bitmask(taxa=arg)
+            else:
+                mask = ns.taxa_bitmask(taxa=arg)
             if mask != want:
                 ctx.violation("roundtrip|taxa_bitmask-is-not-the-or-of-member-bits",
                               "taxa_bitmask(taxa=%r) = %s, expected %s" % (self.lab(S), bin(mask), bin(want)),
@@ -828,8 +1080,15 @@ class Run(object):
                               self.detail(members=labels, bits=[bin(m.bits[t]) for t in mem]))
             # ---- bit string --------------------------------------------------------
             ctx.ev("render-bitstring-checked")
+            legacy = rng.random() < 0.12
             try:
-                s = ns.bitmask_as_bitstring(mask)
+                with warnings.catch_warnings():
+                    warnings.simplefilter("ignore")
+                    if legacy:
+                        ctx.ev("route:split_as_string")
+                        s = ns.split_as_string(mask)
+                    else:
+                        s = ns.bitmask_as_bitstring(mask)
                 pos = U.bitstring_positions(s)
             except Exception as e:
                 ctx.unexpected("bitmask_as_bitstring", e, self.detail(members=labels, subset=self.lab(S)))
@@ -839,79 +1098,159 @@ class Run(object):
                               "bitmask_as_bitstring(%s) = %r" % (bin(mask), s), self.detail(members=labels))
             # ---- newick ------------------------------------------------------------
             self.check_newick(ns, m, S, mask, labels)
+            # ---- the same round trip through a Bipartition ---------------------------
+            # (not on an empty namespace: a Bipartition over an empty leaf set is outside this property)
+            if mem and rng.random() < 0.04:
+                self.check_bipartition(ns, m, S, taxa, want, labels)
+
+    def check_bipartition(self, ns, m, S, taxa, want, labels):
+        """taxa_bipartition(taxa=S): set of member taxa -> bitmask -> taxa / rendering from the tree side"""
+        ctx = self.ctx
+        ctx.ev("route:taxa_bipartition")
+        try:
+            bp = ns.taxa_bipartition(taxa=taxa)
+            lb = bp.leafset_bitmask
+            back = bp.leafset_taxa(ns)
+        except Exception as e:
+            ctx.unexpected("taxa_bipartition", e, self.detail(members=labels, subset=self.lab(S)))
+            return
+        if lb != want:
+            ctx.violation("roundtrip|taxa_bipartition-leafset-is-not-the-or-of-member-bits",
+                          "taxa_bipartition(taxa=%r).leafset_bitmask = %s, expected %s" % (
+                              self.lab(S), bin(lb) if isinstance(lb, int) else lb, bin(want)),
+                          self.detail(members=labels))
+            return
+        bids = [self.tid_of.get(id(t)) for t in back]
+        if sorted(bids, key=lambda x: (x is None, x)) != sorted(S):
+            ctx.violation("roundtrip|bipartition-leafset_taxa-returns-other-taxa",
+                          "taxa_bipartition(taxa=%r).leafset_taxa(ns) = %r" % (self.lab(S), _show(back)),
+                          self.detail(members=labels))
+        self.judge_newick(lambda: bp.leafset_as_newick_string(ns), "Bipartition.leafset_as_newick_string", {},
+                          m, S, want, labels)
 
     def check_newick(self, ns, m, S, mask, labels):
+        variants = [("bitmask_as_newick_string", {}), ("split_as_newick_string", {})]
+        x = self.rng.random()
+        if x < 0.14:
+            variants.append(("bitmask_as_newick_string", {"preserve_spaces": True}))
+        elif x < 0.22:
+            variants.append(("split_as_newick_string", {"preserve_spaces": True}))
+        elif x < 0.3:
+            variants.append(("bitmask_as_newick_string", {"quote_underscores": False}))
+        for fname, kw in variants:
+            fn = getattr(ns, fname)
+            if not self.judge_newick(lambda: fn(mask, **kw), fname, kw, m, S, mask, labels):
+                return   # one report per subset is enough
+
+    def judge_newick(self, render, fname, kw, m, S, mask, labels):
         ctx = self.ctx
         mem = m.members
         inS = set(S)
-        wantL = sorted(self.lab(S))
-        wantR = sorted(self.world.labels[t] for t in mem if t not in inS)
-        variants = [("bitmask_as_newick_string", {}), ("split_as_newick_string", {})]
-        if self.rng.random() < 0.3:
-            variants.append(("bitmask_as_newick_string", {"preserve_spaces": True}))
-        for fname, kw in variants:
-            ctx.ev("render-newick-checked")
-            try:
-                s = getattr(ns, fname)(mask, **kw)
-            except Exception as e:
-                ctx.unexpected(fname, e, self.detail(members=labels, subset=self.lab(S)))
-                continue
-            try:
-                parsed = U.parse_newick_groups(s)
-            except ValueError as e:
-                ctx.violation("render|newick|unreadable", "%s(%s) = %r: %s" % (fname, bin(mask), s, e),
-                              self.detail(members=labels, subset=self.lab(S)))
-                continue
-            ok = True
-            if parsed[0] == "star":
-                if sorted(parsed[1]) != sorted(labels):
-                    ok, why = False, "star-form-does-not-list-the-members"
-                elif S and len(S) != len(mem):
-                    ok, why = False, "star-form-for-a-proper-subset"
-            else:
-                if sorted(parsed[1]) != wantL or sorted(parsed[2]) != wantR:
-                    ok = False
-                    # diagnostic discriminator (not the oracle): is this what reading the mask by LIST POSITION gives?
-                    pl, pr = [], []
-                    mm = mask
-                    for lab in labels:
-                        (pl if mm & 1 else pr).append(lab)
-                        mm >>= 1
-                    if sorted(pl) == sorted(parsed[1]) and sorted(pr) == sorted(parsed[2]):
-                        why = "labels-indexed-by-list-position"
-                    else:
-                        why = "other"
-            if not ok:
-                ctx.violation("render|newick|names-other-taxa|%s" % why,
-                              "%s(mask of %r) = %r with members %r" % (fname, self.lab(S), s, labels),
-                              self.detail(members=labels, bits=[bin(m.bits[t]) for t in mem], subset=self.lab(S),
-                                          rendering=s))
-                return   # one report per subset is enough
+        wantL = self.lab(S)
+        wantR = [self.world.labels[t] for t in mem if t not in inS]
+        # quote_underscores=False writes '_' unquoted, which every reader takes for a blank: compare modulo that
+        norm = _under if kw.get("quote_underscores") is False else None
+        ctx.ev("render-newick-checked")
+        try:
+            s = render()
+        except Exception as e:
+            ctx.unexpected(fname, e, self.detail(members=labels, subset=self.lab(S)))
+            return True
+        try:
+            parsed = U.parse_newick_groups(s)
+        except ValueError as e:
+            ctx.violation("render|newick|unreadable", "%s(%s) = %r: %s" % (fname, bin(mask), s, e),
+                          self.detail(members=labels, subset=self.lab(S)))
+            return True
+        why = None
+        if parsed[0] == "star":
+            d = U.group_diff(parsed[1], labels, norm)
+            if d == "other":
+                why = "star-form-does-not-list-the-members"
+            elif S and len(S) != len(mem):
+                why = "star-form-for-a-proper-subset"
+            elif d:
+                why = d
+        else:
+            dl = U.group_diff(parsed[1], wantL, norm)
+            dr = U.group_diff(parsed[2], wantR, norm)
+            if dl == "other" or dr == "other":
+                # diagnostic discriminator (not the oracle): is this what reading the mask by LIST POSITION gives?
+                pl, pr = [], []
+                mm = mask
+                for lab in labels:
+                    (pl if mm & 1 else pr).append(lab)
+                    mm >>= 1
+                if U.group_diff(parsed[1], pl, norm) is None and U.group_diff(parsed[2], pr, norm) is None:
+                    why = "labels-indexed-by-list-position"
+                else:
+                    why = "other"
+            elif dl or dr:
+                why = dl or dr
+        if why:
+            ctx.violation("render|newick|names-other-taxa|%s" % why,
+                          "%s(mask of %r%s) = %r with members %r" % (
+                              fname, self.lab(S), "".join(", %s=%r" % kv for kv in sorted(kw.items())), s, labels),
+                          self.detail(members=labels, bits=[bin(m.bits[t]) for t in mem], subset=self.lab(S),
+                                      rendering=s))
+            return False
+        return True
 
     # ---- lookups ----------------------------------------------------------------------
     def queries(self, m):
         if self.fixed_queries is not None:
             return self.fixed_queries
         rng = self.rng
-        labs = list(dict.fromkeys(self.lab(m.members)))
+        labs = list(dict.fromkeys(x for x in self.lab(m.members) if x is not None))
         rng.shuffle(labs)
         q = labs[:3]
         q += [x.swapcase() for x in labs[:2]]
         if labs:
             q.append(labs[-1].upper())
+            # near misses in white space: a blank-padded / stripped variant of a present label
+            x = labs[0]
+            q.append(x.strip() if x != x.strip() and rng.random() < 0.5 else rng.choice((" " + x, x + " ", " " + x + " ")))
+            if len(labs) > 1 and rng.random() < 0.3:
+                x = labs[1].swapcase()
+                q.append(rng.choice((" " + x, x + " ", "\t" + x)))
         q.append("zz~absent")
-        return list(dict.fromkeys(x for x in q if x))
+        if rng.random() < 0.25:
+            q.append("")
+        return list(dict.fromkeys(q))
 
     def check_lookups(self, ns, m, light):
+        cnt = [0, 0, 0]         # lookup-checked, boundary-query-checked, require-checked (flushed once: cheaper)
+        try:
+            self._check_lookups(ns, m, light, cnt)
+        finally:
+            ev = self.ctx.ev
+            if cnt[0]:
+                ev("lookup-checked", cnt[0])
+            if cnt[1]:
+                ev("boundary-query-checked", cnt[1])
+            if cnt[2]:
+                ev("require-checked", cnt[2])
+
+    def _check_lookups(self, ns, m, light, cnt):
         ctx = self.ctx
+        rng = self.rng
         real = self.real
         Q = self.queries(m)
+        boundary_q = set(q for q in Q if q == "" or q != q.strip())
         n0 = len(ns)
-        overrides = (None, True, False)
+        # per-call settings: None, a truthy and a falsy value (now and then the non-bool twins 1 / 0)
+        overrides = (None, rng.choice(TRUTHY), rng.choice(FALSY))
+        unlabelled = any(self.world.labels[t] is None for t in m.members)
         if light:
             Q = Q[:2]
         for override in overrides:
             kw = {} if override is None else {"is_case_sensitive": override}
+            pos = () if (override is None or rng.random() >= 0.2) else (override,)
+            if pos:
+                kw = {}
+                ctx.ev("route:positional-override")
+            if override is not None and not _is_bool(override):
+                ctx.ev("non-bool-override-checked")
             mode = _mode_name(m, override)
             per_q = {}
             for q in Q:
@@ -921,30 +1260,37 @@ class Run(object):
                     continue
                 per_q[q] = tids
                 want = [real[t] for t in tids]
-                ctx.ev("lookup-checked", 3)
-                got = ns.findall(q, **kw)
-                if not isinstance(got, list) or len(got) != len(want) or any(a is not b for a, b in zip(got, want)):
+                cnt[0] += 3
+                if q in boundary_q:
+                    cnt[1] += 1
+                got = ns.findall(q, *pos, **kw)
+                if not (type(got) is list and len(got) == len(want) and all(map(_is, got, want))):
                     same_set = isinstance(got, list) and sorted(map(id, got)) == sorted(map(id, want))
                     ctx.violation("lookup|findall|%s|%s" % ("not-in-membership-order" if same_set else "wrong-members", mode),
                                   "findall(%r) = %r, matching members are %r" % (
                                       q, [getattr(t, "label", t) for t in got] if isinstance(got, list) else got,
                                       self.lab(tids)), self.detail(members=self.lab(m.members), query=q))
-                g = ns.get_taxon(q, **kw)
+                g = ns.get_taxon(q, *pos, **kw)
                 if (g is not (want[0] if want else None)):
                     ctx.violation("lookup|get_taxon|not-the-first-match|%s" % mode,
                                   "get_taxon(%r) = %r, matching members are %r" % (q, getattr(g, "label", g), self.lab(tids)),
                                   self.detail(members=self.lab(m.members), query=q))
-                h = ns.has_taxon_label(q, **kw)
-                if h is not bool(want):
+                h = ns.has_taxon_label(q, *pos, **kw)
+                if bool(h) != bool(want):
                     ctx.violation("lookup|has_taxon_label|wrong-answer|%s" % mode,
                                   "has_taxon_label(%r) = %r with %d matching members" % (q, h, len(want)),
                                   self.detail(members=self.lab(m.members), query=q))
+                elif not _is_bool(h):
+                    ctx.note("has_taxon_label-returned-a-non-bool")
                 if want and not light:
                     # require_taxon on a present label: returns the first match, creates nothing
-                    ctx.ev("require-checked")
+                    cnt[2] += 1
                     try:
-                        r = ns.require_taxon(q, **kw)
+                        r = ns.require_taxon(q, *pos, **kw)
                     except Exception as e:
+                        from ..core import CaseTimeout
+                        if isinstance(e, CaseTimeout):
+                            raise
                         ctx.violation("require_taxon|raised-although-label-present|%s" % mode,
                                       "require_taxon(%r) raised %s although %d member(s) match" % (
                                           q, type(e).__name__, len(want)), self.detail(members=self.lab(m.members)))
@@ -954,7 +1300,8 @@ class Run(object):
                             "created-members-although-label-present" if len(ns) != n0 else "not-the-first-match", mode),
                             "require_taxon(%r) returned %r, namespace size %d -> %d" % (
                                 q, getattr(r, "label", r), n0, len(ns)), self.detail(members=self.lab(m.members)))
-                        raise Abort()
+                        if len(ns) != n0:
+                            raise Abort()       # the model cannot follow; a wrong return alone leaves the state intact
             if light:
                 continue
             judged = [q for q in Q if q in per_q]
@@ -962,18 +1309,32 @@ class Run(object):
                 continue
             # ---- multi-label lookups -------------------------------------------------
             lists = [judged[:1], judged[:2], judged[-2:], judged]
+            if rng.random() < 0.08:
+                lists.append([])
+                ctx.ev("route:empty-label-list")
             for ql in lists:
-                ctx.ev("lookup-checked", 3)
+                cnt[0] += 3
+                # the label collection in several shapes (sets: iteration order is arbitrary -- the oracle below
+                # only uses per-label membership order)
+                x = rng.random()
+                shape = list if x < 0.6 else tuple if x < 0.75 else iter if x < 0.9 else set
+                if shape is not list:
+                    ctx.ev("route:label-collection-not-a-list")
                 # all matches
-                got = ns.get_taxa(ql, **kw)
+                got = ns.get_taxa(shape(ql), *pos, **kw)
                 want_set = []
                 for q in ql:
                     for t in per_q[q]:
                         if t not in want_set:
                             want_set.append(t)
-                gids = [self.tid_of.get(id(t)) for t in got] if isinstance(got, list) else None
                 bad = None
-                if gids is None or sorted(gids, key=lambda x: (x is None, x)) != sorted(want_set) or len(set(gids)) != len(gids):
+                if type(got) is list and len(got) == len(want_set) and all(a is real[t] for a, t in zip(got, want_set)):
+                    gids = want_set     # quick path: exactly the expected objects, label by label in membership order
+                else:
+                    gids = [self.tid_of.get(id(t)) for t in got] if isinstance(got, list) else None
+                if gids is want_set:
+                    pass
+                elif gids is None or sorted(gids, key=lambda x: (x is None, x)) != sorted(want_set) or len(set(gids)) != len(gids):
                     bad = "wrong-members"
                 else:
                     # members matched by the same label keep membership order
@@ -987,34 +1348,74 @@ class Run(object):
                                       ql, [getattr(t, "label", t) for t in got] if isinstance(got, list) else got,
                                       self.lab(want_set)), self.detail(members=self.lab(m.members)))
                 # first matches
-                gotf = ns.get_taxa(ql, first_match_only=True, **kw)
+                if pos:
+                    gotf = ns.get_taxa(ql, pos[0], True)
+                else:
+                    gotf = ns.get_taxa(ql, first_match_only=True, **kw)
                 wantf = [real[per_q[q][0]] for q in ql if per_q[q]]
                 if not isinstance(gotf, list) or len(gotf) != len(wantf) or any(a is not b for a, b in zip(gotf, wantf)):
                     ctx.violation("lookup|get_taxa(first_match_only)|wrong-members|%s" % mode,
                                   "get_taxa(%r, first_match_only=True) = %r" % (
                                       ql, [getattr(t, "label", t) for t in gotf] if isinstance(gotf, list) else gotf),
                                   self.detail(members=self.lab(m.members)))
-                hh = ns.has_taxa_labels(ql, **kw)
-                if hh is not all(bool(per_q[q]) for q in ql):
+                hh = ns.has_taxa_labels(shape(ql), *pos, **kw)
+                if bool(hh) != all(bool(per_q[q]) for q in ql):
                     ctx.violation("lookup|has_taxa_labels|wrong-answer|%s" % mode,
                                   "has_taxa_labels(%r) = %r" % (ql, hh), self.detail(members=self.lab(m.members)))
-                # labels -> bitmask
+                elif not _is_bool(hh):
+                    ctx.note("has_taxa_labels-returned-a-non-bool")
+                # labels -> bitmask (keyword route only: taxa_bitmask takes keywords)
+                kwl = {} if override is None else {"is_case_sensitive": override}
                 if all(t in m.bits for t in want_set):
                     ctx.ev("roundtrip-checked")
                     wantm = 0
                     for t in want_set:
                         wantm |= m.bits[t]
-                    gm = ns.taxa_bitmask(labels=ql, **kw)
+                    if rng.random() < 0.06:
+                        ctx.ev("route:get_taxa_bitmask")
+                        gm = ns.get_taxa_bitmask(labels=shape(ql), **kwl)
+                    else:
+                        gm = ns.taxa_bitmask(labels=shape(ql), **kwl)
                     if gm != wantm:
                         ctx.violation("roundtrip|taxa_bitmask(labels)-is-not-the-or-of-matching-members|%s" % mode,
                                       "taxa_bitmask(labels=%r) = %s, expected %s" % (ql, bin(gm), bin(wantm)),
                                       self.detail(members=self.lab(m.members)))
+                    if rng.random() < 0.1:
+                        ctx.ev("route:taxa_bitmask-labels-first_match_only")
+                        wantm = 0
+                        for q in ql:
+                            if per_q[q]:
+                                wantm |= m.bits[per_q[q][0]]
+                        gm = ns.taxa_bitmask(labels=ql, first_match_only=True, **kwl)
+                        if gm != wantm:
+                            ctx.violation("roundtrip|taxa_bitmask(labels,first_match_only)-is-not-the-or-of-first-matches|%s" % mode,
+                                          "taxa_bitmask(labels=%r, first_match_only=True) = %s, expected %s" % (
+                                              ql, bin(gm), bin(wantm)), self.detail(members=self.lab(m.members)))
+                    if ql and m.members and rng.random() < 0.02:
+                        ctx.ev("route:taxa_bipartition")
+                        try:
+                            lb = ns.taxa_bipartition(labels=ql, **kwl).leafset_bitmask
+                        except Exception as e:
+                            ctx.unexpected("taxa_bipartition(labels)", e, self.detail(members=self.lab(m.members)))
+                            lb = None
+                        wantm = 0
+                        for t in want_set:
+                            wantm |= m.bits[t]
+                        if lb is not None and lb != wantm:
+                            ctx.violation("roundtrip|taxa_bipartition(labels)-leafset-is-not-the-or-of-matching-members|%s" % mode,
+                                          "taxa_bipartition(labels=%r).leafset_bitmask = %s, expected %s" % (
+                                              ql, bin(lb) if isinstance(lb, int) else lb, bin(wantm)),
+                                          self.detail(members=self.lab(m.members)))
             # ---- label -> taxon map (collisions documented as unhandled: any matching member) -----
-            ctx.ev("lookup-checked")
+            cnt[0] += 1
             try:
-                d = ns.label_taxon_map(**kw)
+                d = ns.label_taxon_map(*pos, **kw)
             except Exception as e:
-                ctx.unexpected("label_taxon_map", e, self.detail(members=self.lab(m.members)))
+                from ..core import CaseTimeout
+                if isinstance(e, CaseTimeout):
+                    raise
+                ctx.unexpected("label_taxon_map(unlabelled-member)" if unlabelled else "label_taxon_map", e,
+                               self.detail(members=self.lab(m.members)))
                 d = None
             if d is not None:
                 for q in judged:
@@ -1042,6 +1443,8 @@ class Run(object):
             self.last_op = "end-of-lazy-history"
             for k, (ns, m) in enumerate(self.pairs):
                 self.compare(ns, m, "current" if k == self.cur else "bystander", True, False)
+            if self.world.links:
+                self.resolve_links()
         if self.nontrivial:
             self.ctx.nontrivial((self.history, self.case.get("cs"), self.case.get("pool")))
 
@@ -1052,9 +1455,13 @@ class Run(object):
 EXH_QUERIES = ["a", "A", "b", "B", "c"]
 
 
-def run_history(ctx, case, ops, cs, mode, rng, queries=None, full_every=True, mutable=True):
-    run = Run(ctx, case, cs=cs, mutable=mutable, mode=mode, rng=rng, queries=queries)
+def run_history(ctx, case, ops, cs, mode, rng, queries=None, full_every=True, mutable=True, initial=None):
+    run = None
     try:
+        # (the initial namespace of an exhaustive alphabet is the same for every history: its complete comparison
+        # happens in the histories of length 1, whose only operation is also the last one)
+        run = Run(ctx, case, cs=cs, mutable=mutable, mode=mode, rng=rng, queries=queries, initial=initial,
+                  init_full=full_every)
         last = len(ops) - 1
         for k, op in enumerate(ops):
             run.apply(op, full=(full_every or k == last))
@@ -1064,16 +1471,26 @@ def run_history(ctx, case, ops, cs, mode, rng, queries=None, full_every=True, mu
     return run
 
 
+COPY_KINDS = ["copy", "ctor", "ctor_label", "deepcopy", "clone0", "clone1", "clone2", "taxonset"]
+
+
 def random_op(run, rng, pool):
     """one operation descriptor, drawn with the current model state in view"""
     m = run.pairs[run.cur][1]
     n = len(m.members)
     L = rng.choice(pool)
+    if rng.random() < 0.04:
+        L = rng.choice(BOUNDARY)      # every pool meets the boundary labels now and then
     present = run.lab(m.members)
     Lp = rng.choice(present) if present and rng.random() < 0.6 else L
-    if rng.random() < 0.3:
+    if Lp is None:
+        Lp = ""                       # queries are strings
+    x = rng.random()
+    if x < 0.3:
         Lp = Lp.swapcase()
-    cs = rng.choice([None, None, True, False])
+    elif x < 0.36:
+        Lp = rng.choice((" " + Lp, Lp + " ", Lp.strip()))
+    cs = rng.choice([None, None, None, None, True, True, False, False, 1, 0])
     x = rng.random()
     if n < 2 and x < 0.5:
         return ["new", L]
@@ -1088,16 +1505,16 @@ def random_op(run, rng, pool):
         (0.08, lambda: ["remove_at", rng.randint(0, 9)] + ([True] if rng.random() < 0.1 else [])),
         (0.01, lambda: ["remove_nonmember"]),
         (0.04, lambda: ["del", rng.randint(-n - 1, n)]),
-        (0.05, lambda: ["remove_label", Lp, cs, rng.random() < 0.08]),
-        (0.05, lambda: ["discard", Lp, cs, rng.random() < 0.08]),
+        (0.05, lambda: ["remove_label", Lp, cs, rng.random() < 0.15]),
+        (0.05, lambda: ["discard", Lp, cs, rng.random() < 0.15]),
         (0.01, lambda: ["clear"]),
         (0.07, lambda: ["sort", rng.choice([None, None, "lower", "len"]), rng.random() < 0.4]),
         (0.05, lambda: ["reverse"]),
         (0.06, lambda: ["relabel", rng.randint(0, 9), L]),
-        (0.03, lambda: ["set_cs", rng.random() < 0.5]),
-        (0.04, lambda: ["set_mutable", rng.random() < 0.6]),
-        (0.09, lambda: ["copy", rng.choice(["copy", "ctor", "ctor_label", "deepcopy", "clone0", "clone1", "clone2"]),
-                        rng.random() < 0.5]),
+        (0.02, lambda: ["relabel_other", rng.randint(0, 9), L]),
+        (0.03, lambda: ["set_cs", rng.choice(TRUTHY + FALSY)]),
+        (0.04, lambda: ["set_mutable", rng.choice(TRUTHY if rng.random() < 0.6 else FALSY)]),
+        (0.09, lambda: ["copy", rng.choice(COPY_KINDS), rng.random() < 0.5]),
     ]
     tot = sum(w for w, _ in table)
     x = rng.random() * tot
@@ -1106,6 +1523,23 @@ def random_op(run, rng, pool):
         if x <= 0:
             return f()
     return ["reverse"]
+
+
+def big_history(rng):
+    """(constructor items, operations) for a namespace of 300+ members with case-variant pairs"""
+    labels = ["T%03d" % i for i in range(300)] + ["t%03d" % i for i in range(0, 300, 37)]
+    initial = [["T" if i % 3 == 0 else "L", lab] for i, lab in enumerate(labels)]
+    ops = [["remove_at", 0] for _ in range(5)] + [["del", -1] for _ in range(5)]
+    ops += [["remove_at", rng.randint(0, 400)] for _ in range(10)]
+    ops += [["readd"], ["readd"], ["add_taxa", 7], ["new", "Z1"], ["new", "t100"]]
+    ops += [["sort", rng.choice([None, "lower"]), rng.random() < 0.5], ["discard", "t037", False, False],
+            ["remove_label", "T074", None, True], ["reverse"], ["copy", "deepcopy", True],
+            ["remove_at", 3], ["readd"], ["relabel", 5, "t111"], ["require", "T111", None],
+            ["require", "absent", 1], ["copy", "copy", False], ["del", 0], ["new_taxa", ["n1", "N1", "n1"]],
+            ["discard", "N1", None, False], ["remove_label", "t148", True, False], ["set_mutable", False],
+            ["require", "T200", True], ["new", "nope"], ["set_mutable", True], ["sort", "len", True],
+            ["copy", "ctor", True], ["remove_at", 150], ["readd"], ["reverse"]]
+    return initial, ops
 
 
 def run_case(case, ctx):
@@ -1118,22 +1552,38 @@ def run_case(case, ctx):
         for d in DIRECTED:
             run = run_history(ctx, case, d["ops"], d["cs"], case["mode"], random.Random(0))
             ctx.ev("history-run")
-            if case["mode"] == "eager":
+            if case["mode"] == "eager" and run is not None:
                 ctx.sample({"kind": "directed", "name": d["name"], "ops": d["ops"],
                             "final_members": run.lab(run.pairs[run.cur][1].members)})
+    elif kind == "big":
+        initial, ops = big_history(rng)
+        run = None
+        try:
+            run = Run(ctx, case, cs=rng.choice((False, True, 1)), mode=case["mode"], rng=rng, initial=initial)
+            last = len(ops) - 1
+            for k, op in enumerate(ops):
+                run.apply(op, full=(k % 4 == 3 or k == last))
+            run.finish()
+        except Abort:
+            pass
+        ctx.ev("history-run")
     elif kind == "exh":
         alpha = U.ALPHABETS[case["alpha"]]
         k = len(alpha)
         mode = case.get("mode", "eager")
         pre = [alpha[i] for i in case["prefix"]]
+        queries = U.ALPHABET_QUERIES.get(case["alpha"], EXH_QUERIES)
+        initial = U.ALPHABET_INIT.get(case["alpha"])
         for length in case["lens"]:
             extra = length - len(pre)
             if extra < 0:
                 continue
             for suffix in itertools.product(range(k), repeat=extra):
                 ops = pre + [alpha[i] for i in suffix]
-                run_history(ctx, case, ops, case["cs"], mode, random.Random(0), queries=EXH_QUERIES,
-                            full_every=False)
+                # route choices vary from history to history, reproducibly (int tuples hash deterministically)
+                run_history(ctx, case, ops, case["cs"], mode,
+                            random.Random(hash(tuple(case["prefix"]) + suffix + (length,)) & 4095), queries=queries,
+                            full_every=False, initial=initial)
                 ctx.ev("history-run")
     elif kind == "random":
         pool = POOLS[case["pool"]]
@@ -1143,7 +1593,8 @@ def run_case(case, ctx):
             initial = [[rng.choice("LLT"), rng.choice(pool)] for _ in range(rng.randint(1, 5))]
         run = None
         try:
-            run = Run(ctx, case, cs=rng.random() < 0.5, mutable=True, mode=mode, rng=rng, initial=initial)
+            run = Run(ctx, case, cs=rng.choice(TRUTHY + FALSY), mutable=rng.choice(TRUTHY), mode=mode, rng=rng,
+                      initial=initial, cls="TaxonSet" if rng.random() < 0.125 else "TaxonNamespace")
             for _ in range(0 if initial else rng.randint(0, 4)):
                 run.apply(["new", rng.choice(pool)])
             for _ in range(case["len"]):
